@@ -1952,4 +1952,50 @@ theorem closed_of_closedB {runs : List NsD} (h : closedB runs = true) : Closed r
   obtain ⟨hv, tgt, htgt, hname, hmem⟩ := h run hrun ct hct
   exact ⟨validCompB_iff.mp hv, tgt, htgt, hname, by simpa using hmem⟩
 
+/-! ## Writing over an output directory that already has content -/
+
+theorem readFile_writeFile_same {α : Type} (fs : OutDir α) (p : List Str) (c : α) : readFile (writeFile fs p c) p = some c := by
+  simp [readFile, writeFile]
+
+theorem readFile_writeFile_other {α : Type} (fs : OutDir α) {p q : List Str} (c : α) (h : p ≠ q) :
+    readFile (writeFile fs q c) p = readFile fs p := by
+  have hq : (q == p) = false := by simpa using fun e => h e.symm
+  simp only [readFile, writeFile, List.find?_cons, hq]
+  congr 1
+  induction fs with
+  | nil => rfl
+  | cons f fs ih =>
+    by_cases hf : f.1 = q
+    · have hne : (f.1 != q) = false := by simp [hf]
+      have hfp : (f.1 == p) = false := by rw [hf]; exact hq
+      rw [List.filter_cons, hne, List.find?_cons, hfp]
+      simpa using ih
+    · have hne : (f.1 != q) = true := by simpa using hf
+      rw [List.filter_cons, hne]
+      simp only [if_true, List.find?_cons]
+      cases hfp : (f.1 == p) with
+      | true => rfl
+      | false => exact ih
+
+theorem readFile_writeAll_other {α : Type} : ∀ (files : List (List Str × α)) (fs : OutDir α) (p : List Str),
+    (∀ f ∈ files, f.1 ≠ p) → readFile (writeAll fs files) p = readFile fs p
+  | [], _, _, _ => rfl
+  | f :: fl, fs, p, h => by
+    show readFile (writeAll (writeFile fs f.1 f.2) fl) p = _
+    rw [readFile_writeAll_other fl _ p (fun g hg => h g (List.mem_cons_of_mem _ hg)),
+      readFile_writeFile_other fs f.2 (fun e => h f (by simp) e.symm)]
+
+/-- **The content of every generated file is a function of the run's input only**: whatever the output directory held
+before, after a run whose files have pairwise different paths every file of the run reads back exactly the content rendered
+for it. -/
+theorem readFile_writeAll {α : Type} : ∀ (files : List (List Str × α)) (fs : OutDir α),
+    (files.map (·.1)).Nodup → ∀ f ∈ files, readFile (writeAll fs files) f.1 = some f.2
+  | [], _, _, f, hf => by simp at hf
+  | g :: fl, fs, hnd, f, hf => by
+    simp only [List.map_cons, List.nodup_cons] at hnd
+    show readFile (writeAll (writeFile fs g.1 g.2) fl) f.1 = _
+    rcases List.mem_cons.mp hf with rfl | hf
+    · rw [readFile_writeAll_other fl _ _ (fun h hh e => hnd.1 (by rw [← e]; exact List.mem_map_of_mem hh)), readFile_writeFile_same]
+    · exact readFile_writeAll fl _ hnd.2 f hf
+
 end NunavutVerif.Html
